@@ -354,19 +354,30 @@ Theorem C03_validate_never_succeeds_never_runs :
     (has_hash x' = true -> validate_unchanged_deferred = false -> x' = x).
 Proof. exact validate_never_succeeds_never_runs. Qed.
 
-(* HAZARD (not a C03 violation; reported, see design.d/C03.md and findings.d/C03-validate-loop.json):
-   as long as the "digest unchanged" branch of validate_dynamic_job sets PENDING without `deferred`
-   (validate_unchanged_deferred = false: true of /repo at bae2038, see gen.golden/GenFresh.v), the
-   step is exactly as dispatchable as before: every further dispatch derives the same job with the
-   same result, for ever, unless another actor changes something.  The statement is conditional so
-   that it survives the proposed fix (set_state(PENDING, True)). *)
-Theorem C03_validate_unchanged_redispatches :
+(* The "digest unchanged" branch of validate_dynamic_job since fix d760e3e (finding D36): the step
+   is left PENDING *and deferred* with its hash, and it is NOT dispatched again, whatever other actors
+   do, until a transaction changes the row of c itself -- which is what Workflow.mark_step_pending
+   does (it clears `deferred`) when an input of c changes.  (`deferred` is the generated
+   validate_unchanged_deferred; FreshSkipProofs.validate_unchanged_is_deferred breaks if the source
+   stops passing True.) *)
+Theorem C03_validate_unchanged_waits :
   forall (x : xworld) (t : N) (x' : xworld) (s : bool),
-    validate_unchanged_deferred = false ->
     do_xtry x t false = (x', XRTry 3 s) -> has_hash x' = true ->
-    forall (n : nat) (t' : N),
-      xrun (repeat (XTry t' false) n) x = x /\ do_xtry x t' false = (x, XRTry 3 false).
-Proof. exact validate_unchanged_redispatches. Qed.
+    c_state (xb x') = SS_PENDING /\ c_deferred (xb x') = true /\ x_hash x' = x_hash x /\
+    forall mid, forallb not_crow mid = true ->
+      forall t' c, do_xtry (xrun mid x') t' c = (xrun mid x', XRTry 0 false).
+Proof. exact validate_unchanged_waits. Qed.
+
+(* Regression statement for finding D36 (fixed by d760e3e; not a C03 violation but a dispatch loop,
+   C10): with the code BEFORE the fix (validate_prefix: set_state(PENDING) without `deferred`), a
+   VALIDATE_DYNAMIC dispatch that keeps the hash leaves the whole state exactly as it was, so every
+   further dispatch derives the same job with the same result, for ever.  The oracle replays the
+   witness (WITNESS_VALIDATE_LOOP, c03_sys.validate_loop_system) and requires that it does NOT loop. *)
+Theorem C03_prefix_validate_unchanged_redispatches :
+  forall (x : xworld) (t : N) (x' : xworld) (s : bool),
+    do_xtry_gen validate_prefix x t false = (x', XRTry 3 s) -> has_hash x' = true ->
+    x' = x /\ forall t', do_xtry_gen validate_prefix x t' false = (x, XRTry 3 false).
+Proof. exact prefix_validate_unchanged_redispatches. Qed.
 
 (* Hash cancellation (Executor._run_work_thread returning None while the build shuts down), at each
    of its three sites: in _new_run of any job, in the output hashing of try_skip_job (C03_skip_outcomes,
@@ -410,6 +421,34 @@ Theorem C03_command_starts_only_without_hash :
     c_run (xb x) = None -> c_run (xb (fst (xstep x e))) <> None ->
     exists t, e = XTry t false /\ x_hash x = None /\ snd (do_try (xb x) t) = RTry true.
 Proof. exact command_starts_only_without_hash. Qed.
+
+(* NOT TRUE (finding C03-skip-window, the skip-path analogue of D19): the statement for the moment
+   the skip is RECORDED.  Between the hashing of the inputs and the transaction that records the
+   skip, the record of an input can be replaced (its producer is executed again: mark_step_pending
+   ignores a CHECKING step, and try_skip_job does not read the input records again). *)
+Definition C03_skip_record_full : Prop :=
+  forall x0 t x1 mid t' x3,
+    do_xtry x0 t false = (x1, XRTry 2 false) -> is_checking x1 = true ->
+    forallb xenv_only mid = true -> do_xchk (xrun mid x1) t' false = (x3, XRChk true) ->
+    forall sh f h, x_hash x3 = Some sh -> In (f, h) (sh_inp sh) ->
+      f_hash (files (xb x3) f) = h /\ disk (xb x3) f = h.
+
+(* Witness: consumer 5 holds the hash ([(1,4)], [(9,7)]); input 1 is BUILT by step 8; while the
+   outputs are hashed, step 8 runs again, rewrites the file (4 -> 7) and completes; the skip is
+   recorded: SUCCEEDED, stored hash still lists (1,4), record and disk say 7.  Replayed on the real
+   Executor (WITNESS_SKIP_WINDOW) and through the real serve() (c03_sys.skip_window_system). *)
+Theorem C03_skip_record_full_refuted_by_producer_rerun :
+  let x1 := fst (do_xtry skipwin_x0 1 false) in
+  let x3 := fst (do_xchk (xrun skipwin_mid x1) 4 false) in
+  do_xtry skipwin_x0 1 false = (x1, XRTry 2 false) /\ is_checking x1 = true /\
+  forallb xenv_only skipwin_mid = true /\
+  snd (do_xchk (xrun skipwin_mid x1) 4 false) = XRChk true /\
+  c_state (xb x3) = SS_SUCCEEDED /\ x_hash x3 = Some (mkSH 1 [(1, 4)] [(9, 7)]) /\
+  f_hash (files (xb x3) 1) = 7 /\ disk (xb x3) 1 = 7 /\ f_state (files (xb x3) 1) = FS_BUILT.
+Proof. exact skip_record_refuted_by_producer_rerun. Qed.
+
+Theorem C03_skip_record_full_refuted : ~ C03_skip_record_full.
+Proof. exact skip_record_full_refuted. Qed.
 
 (* What the generated decisions are (these break when the source changes them). *)
 Theorem C03_job_kind :
@@ -490,26 +529,19 @@ Proof. vm_compute. repeat split; reflexivity. Qed.
 
 (* validate_dynamic_job: c amends the static file 2, which is recorded MISSING by another actor while
    the command runs; c SUCCEEDS with a hash that does not list 2 but keeps the edge.  Made PENDING
-   again with nothing else changed, c gets a VALIDATE_DYNAMIC job that leaves everything as it was,
-   so the same job is derived again and again (C03_validate_unchanged_redispatches). *)
-Example C03_example_validate_loop :
+   again with nothing else changed, c gets a VALIDATE_DYNAMIC job: digest unchanged, c is left PENDING
+   and deferred and is not dispatched again; mark_step_pending (repend) wakes it up.  With the code
+   before fix d760e3e the job leaves c not deferred (C03_prefix_validate_unchanged_redispatches). *)
+Example C03_example_validate_waits :
   let x := xrun [XTry 1 false; XE (EAmend [2]); XE (ERow 2 (mkF true FS_MISSING 0 false true None false));
                  XEnd 2 true false; repend] sx0 in
   x_hash x = Some (mkSH 1 [(1, 3)] [(9, 7)]) /\ c_dyn (xb x) = [2] /\
-  snd (xstep x (XTry 3 false)) = XRTry 3 false /\ has_hash (fst (xstep x (XTry 3 false))) = true /\
-  (validate_unchanged_deferred = false ->
-     xstep x (XTry 3 false) = (x, XRTry 3 false) /\ xrun (repeat (XTry 3 false) 50) x = x).
-Proof.
-  cbv zeta. split; [vm_compute; reflexivity|]. split; [vm_compute; reflexivity|].
-  split; [vm_compute; reflexivity|]. split; [vm_compute; reflexivity|]. intros Hv.
-  match goal with |- xstep ?x _ = _ /\ _ =>
-    assert (Htry : do_xtry x 3 false = (fst (do_xtry x 3 false), XRTry 3 false))
-  end.
-  { match goal with |- ?a = (fst ?a, _) => rewrite (surjective_pairing a) at 1 end.
-    f_equal; try (vm_compute; reflexivity). }
-  pose proof (validate_unchanged_redispatches _ 3 _ false Hv Htry) as H.
-  assert (Hh : has_hash (fst (do_xtry (xrun [XTry 1 false; XE (EAmend [2]);
-                 XE (ERow 2 (mkF true FS_MISSING 0 false true None false)); XEnd 2 true false; repend] sx0) 3 false)) = true)
-    by (vm_compute; reflexivity).
-  destruct (H Hh 50%nat 3) as [H1 H2]. split; [exact H2|exact H1].
-Qed.
+  snd (xstep x (XTry 3 false)) = XRTry 3 false /\
+  (let y := fst (xstep x (XTry 3 false)) in
+     c_state (xb y) = SS_PENDING /\ c_deferred (xb y) = true /\ has_hash y = true /\
+     snd (xstep y (XTry 4 false)) = XRTry 0 false /\
+     snd (xstep (xrun [repend] y) (XTry 5 false)) = XRTry 3 false) /\
+  snd (do_xtry_gen validate_prefix x 3 false) = XRTry 3 false /\
+  has_hash (fst (do_xtry_gen validate_prefix x 3 false)) = true /\
+  c_deferred (xb (fst (do_xtry_gen validate_prefix x 3 false))) = false.
+Proof. vm_compute. repeat split; reflexivity. Qed.
